@@ -1,6 +1,6 @@
 //go:build verif
 
-package semver
+package cargo
 
 // Machine-checked contracts for this package (checked by /verif/govc; see /verif/DESIGN.md).
 // This file contains comments only; it is compiled only under the build tag "verif".
@@ -10,7 +10,7 @@ package semver
 //@   ensures result == 0 ==> a == b                       [C01]
 //@   ensures result == (a < b ? -1 : (a > b ? 1 : 0))     [C03 C08]
 
-//@ func comparePrerelease
+//@ func comparePrereleaseIdentifiers
 //@   comparator a ~ b                                     [C01]
 
 //@ func (*Version).Compare
